@@ -155,7 +155,6 @@ package geom
 //@ func MultiPolygon.DumpCoordinates
 //@   trusted
 //@ func MultiPolygon.Coordinates
-//@   trusted
 //@ func GeometryCollection.DumpCoordinates
 //@   trusted
 //@ func GeometryCollection.Dump
@@ -163,27 +162,30 @@ package geom
 //@ func MultiPolygon.Centroid
 //@   trusted
 //@ func LineString.Centroid
-//@   trusted
 //@ func MultiLineString.Centroid
-//@   trusted
 //@ func GeometryCollection.Centroid
 //@   trusted
 //@ func GeometryCollection.pointCentroid
-//@   trusted
 //@ func GeometryCollection.linearCentroid
-//@   trusted
 //@ func GeometryCollection.arealCentroid
-//@   trusted
 //@ func Polygon.PointOnSurface
 //@   trusted
 //@ func GeometryCollection.PointOnSurface
-//@   trusted
 //@ func MultiLineString.Densify
-//@   trusted
+//@   requires maxDistance > 0
+//@   ensures result.ctype == m.ctype && len(result.lines) == len(m.lines) && fresh(result.lines)
+//@   loop 0 invariant -1 <= rangeindex && rangeindex < len(m.lines) && len(lss) == len(m.lines) && offset(lss) == 0 && fresh(lss)
+//@   loop 0 invariant forall k :: 0 <= k && k <= rangeindex ==> LSInv(lss[k]) && lss[k].seq.ctype == m.ctype && NPts(lss[k].seq) >= NPts(m.lines[k].seq)
 //@ func Polygon.Densify
-//@   trusted
+//@   requires maxDistance > 0
+//@   ensures result.ctype == p.ctype && len(result.rings) == len(p.rings) && fresh(result.rings)
+//@   loop 0 invariant -1 <= rangeindex && rangeindex < len(p.rings) && len(rings) == len(p.rings) && offset(rings) == 0 && fresh(rings)
+//@   loop 0 invariant forall k :: 0 <= k && k <= rangeindex ==> LSInv(rings[k]) && rings[k].seq.ctype == p.ctype && NPts(rings[k].seq) >= NPts(p.rings[k].seq)
 //@ func MultiPolygon.Densify
-//@   trusted
+//@   requires maxDistance > 0
+//@   ensures result.ctype == m.ctype && len(result.polys) == len(m.polys) && fresh(result.polys)
+//@   loop 0 invariant -1 <= rangeindex && rangeindex < len(m.polys) && len(ps) == len(m.polys) && offset(ps) == 0 && fresh(ps)
+//@   loop 0 invariant forall k :: 0 <= k && k <= rangeindex ==> PolyInv(ps[k]) && ps[k].ctype == m.ctype
 //@ func GeometryCollection.Densify
 //@   trusted
 //@ func LineString.Simplify
@@ -207,9 +209,13 @@ package geom
 //@ func GeometryCollection.Boundary
 //@   trusted
 //@ func MultiLineString.Reverse
-//@   trusted
+//@   ensures result.ctype == m.ctype && len(result.lines) == len(m.lines) && fresh(result.lines)
+//@   loop 0 invariant 0 <= i && i <= len(m.lines) && len(linestrings) == len(m.lines) && offset(linestrings) == 0 && fresh(linestrings)
+//@   loop 0 invariant forall k :: 0 <= k && k < i ==> LSInv(linestrings[k]) && linestrings[k].seq.ctype == m.ctype
 //@ func MultiPolygon.Reverse
-//@   trusted
+//@   ensures result.ctype == m.ctype && len(result.polys) == len(m.polys) && fresh(result.polys)
+//@   loop 0 invariant 0 <= i && i <= len(m.polys) && len(polys) == len(m.polys) && offset(polys) == 0 && fresh(polys)
+//@   loop 0 invariant forall k :: 0 <= k && k < i ==> PolyInv(polys[k]) && polys[k].ctype == m.ctype
 //@ func LineString.InterpolateEvenlySpacedPoints
 //@   trusted
 //@ func lineStringFromCoords
@@ -265,34 +271,45 @@ package geom
 // Writers append to the caller's buffer.
 //@ func Point.AppendWKT
 //@   modifies dst
+//@   ensures Kept(result, dst)
 //@ func Point.appendWKTBody
 //@   modifies dst
+//@   ensures Kept(result, dst)
 //@ func LineString.AppendWKT
 //@   modifies dst
+//@   ensures Kept(result, dst)
 //@ func LineString.appendWKTBody
-//@   trusted
+//@   modifies dst
+//@   ensures Kept(result, dst)
 //@ func Polygon.AppendWKT
-//@   trusted
+//@   modifies dst
+//@   ensures Kept(result, dst)
 //@ func Polygon.appendWKTBody
-//@   trusted
+//@   modifies dst
+//@   ensures Kept(result, dst)
+//@   loop 0 invariant -1 <= rangeindex && Kept(dst, old(dst))
 //@ func MultiPoint.AppendWKT
-//@   trusted
+//@   modifies dst
+//@   ensures Kept(result, dst)
+//@   loop 0 invariant -1 <= rangeindex && Kept(dst, old(dst))
 //@ func MultiLineString.AppendWKT
-//@   trusted
+//@   modifies dst
+//@   ensures Kept(result, dst)
+//@   loop 0 invariant -1 <= rangeindex && Kept(dst, old(dst))
 //@ func MultiPolygon.AppendWKT
-//@   trusted
+//@   modifies dst
+//@   ensures Kept(result, dst)
+//@   loop 0 invariant -1 <= rangeindex && Kept(dst, old(dst))
 //@ func GeometryCollection.AppendWKT
-//@   trusted
+//@   modifies dst
+//@   ensures Kept(result, dst)
+//@   loop 0 invariant -1 <= rangeindex && Kept(dst, old(dst))
 //@ func LineString.MarshalJSON
-//@   trusted
 //@ func Polygon.MarshalJSON
-//@   trusted
 //@ func MultiLineString.MarshalJSON
-//@   trusted
 //@ func MultiPolygon.MarshalJSON
 //@   trusted
 //@ func GeometryCollection.MarshalJSON
-//@   trusted
 
 // Validation internals (R-tree callbacks, maps): outside the subset; C03 lists
 // them as not decided.
@@ -318,7 +335,6 @@ package geom
 //@ func MultiPolygon.PointOnSurface
 //@   trusted
 //@ func MultiPoint.Centroid
-//@   trusted
 
 // Nested collections: the recursive invariant GInv is an uninterpreted
 // predicate over the heaps; showing that it is preserved when a fresh region
@@ -360,7 +376,6 @@ package geom
 //@ func Geometry.appendDump
 //@   trusted
 //@ func Geometry.Dump
-//@   trusted
 
 //@ func GeometryCollection.NumTotalGeometries
 //@   trusted
